@@ -65,7 +65,13 @@ func (v *Vue) evalInclude(ctx VueContext, node *html.Node, vars map[string]any, 
 	// interpolate values again and treat every v-once element as already rendered.
 	rootIsTemplate := len(compDom) > 0 && compDom[0].Type == html.ElementNode && compDom[0].Data == "template"
 	if rootIsTemplate && (len(processedDom) == 0 || processedDom[0] != compDom[0]) {
-		return processedDom, nil
+		// evalTemplate only looks at the first node: what follows the root
+		// <template> in the component file is evaluated here.
+		rest, err := v.evaluate(childCtx, compDom[1:], depth+1)
+		if err != nil {
+			return nil, err
+		}
+		return append(processedDom, rest...), nil
 	}
 
 	return v.evaluate(childCtx, processedDom, depth+1)
